@@ -243,7 +243,7 @@ Proof.
     - destruct Hps as [<-|[<-|[]]]; [exists (Some (k', true)) | exists (Some (k', false))]; split; reflexivity.
     - destruct Hps as [<-|[]]. exists None. split; reflexivity. }
   destruct Hpr as [pr [-> Hpr]].
-  exists uf, ur, cap, pr, ck. split; [reflexivity|]. split; [exact Hcap|]. split; [exact Hpr|].
+  exists uf, ur, cap, pr, ck. split; [exact Eu|]. split; [exact Hcap|]. split; [exact Hpr|].
   split; [exact (check_mark_dom p mv ck Hck)|].
   rewrite <- E. unfold san_text, hint_text. rewrite <- app_assoc.
   destruct uf, ur; reflexivity.
@@ -462,7 +462,8 @@ Proof.
   exists (query_of (absm m)), s'. split; [|split].
   - rewrite Hw. exact (lan_text_parse _ _ _ Hf Ht Hp).
   - exact Hr.
-  - apply (gen_legal_spec s m s' HL). exists (absm m). rewrite <- Em in Ha. auto.
+  - apply (gen_legal_spec s m s' HL). exists (absm m). rewrite <- Em in Ha.
+    split; [exact Hin|]. split; [exact Em | exact Ha].
 Qed.
 
 Print Assumptions san_unique.
